@@ -1,5 +1,6 @@
 import Setec.Driver.DBDrv
 import Setec.Model.Http
+import Setec.Model.Wire
 /- Driver for the `http` trace family (C08; HTTP legs of C01 and C09). -/
 namespace Setec.Driver
 open Std Setec.KV Setec.DB Setec.Acl Setec.Http Setec.DBMon
@@ -111,6 +112,30 @@ def httpLine (st : HttpRun) (lineNo : Nat) (line : String) : Except String (Http
           (if want == got || (want == "opaque" && got == "opaque") then [] else
             [s!"PROPFAIL C09 client_sentinel {tag} ep={ep} n={get "n"} v={v} uic={get "uic"} cli={got} want={want} status={status}"])
          else []) ++
+        -- the wire text of a 200 answer reads back as the outcome and is what the model renders
+        (if status == 200 && isAccepted then
+          let rb := (rbody.replace "\"Value\":null" "\"Value\":\"\"").replace "\"Versions\":null" "\"Versions\":[]"
+          let rb := if rb == "null" && ep == "list" then "[]" else rb
+          match mresp.body with
+          | some r =>
+            (if Wire.readRes ep rb.toList == some r then [] else [s!"PROPFAIL C18 wire_reads_back {tag} ep={ep} rbody={(get "rbody").take 300}"]) ++
+            (if Wire.renderRes r == rb.toList then [] else [s!"DIVERGE wire_bytes {tag} ep={ep} code={(get "rbody").take 200} model={(hexStr (String.ofList (Wire.renderRes r))).take 200}"])
+          | none => []
+         else []) ++
+        -- what the real client put on the wire for the requests that carry bytes or the conditional-get arguments
+        (match lookup fs "creq" with
+         | some ch =>
+           (match (unhexStr ch).map (fun t => (t.replace "\"Value\":null" "\"Value\":\"\"").toList) with
+            | some cr =>
+              if ep == "get" then
+                (if Wire.readGetReq cr == some (n, v, get "uic" == "1") then [] else [s!"PROPFAIL C09 client_request {tag} n={get "n"} v={v} uic={get "uic"} creq={ch.take 200}"]) ++
+                (if Wire.renderGetReq n v (get "uic" == "1") == cr then [] else [s!"DIVERGE wire_request {tag} ep={ep} code={ch.take 200}"])
+              else if ep == "put" then
+                (if Wire.readPutReq cr == some (n, val) then [] else [s!"PROPFAIL C18 request_carries_bytes {tag} n={get "n"} creq={ch.take 200}"]) ++
+                (if Wire.renderPutReq n val == cr then [] else [s!"DIVERGE wire_request {tag} ep={ep} code={ch.take 200}"])
+              else []
+            | none => [s!"PROPFAIL C18 request_carries_bytes {tag} the client's request body is not UTF-8 text"])
+         | none => []) ++
         -- correspondence
         (if mresp.status == status && (status == 200 || mresp.text == rbody) then [] else
           [s!"DIVERGE http_response {tag} ep={ep} code_status={status} model_status={mresp.status} code_body={rbody.take 60} model_body={mresp.text.take 60}"]) ++
